@@ -42,6 +42,54 @@ def _implies(a, b):
     return (not a) or bool(b)
 
 
+_XML_RE = {}
+
+
+def _native_matches(s, name, how="match"):
+    import importlib
+
+    if name in ("XmlName", "NCName", "QName", "XmlChars"):
+        if not _XML_RE:
+            start = "A-Z_a-z\\u00C0-\\u00D6\\u00D8-\\u00F6\\u00F8-\\u02FF\\u0370-\\u037D\\u037F-\\u1FFF\\u200C-\\u200D\\u2070-\\u218F\\u2C00-\\u2FEF\\u3001-\\uD7FF\\uF900-\\uFDCF\\uFDF0-\\uFFFD\\U00010000-\\U000EFFFF"
+            extra = "\\-.0-9\\u00B7\\u0300-\\u036F\\u203F-\\u2040"
+            nc = f"[{start}][{start}{extra}]*"
+            _XML_RE["NCName"] = re.compile(nc)
+            _XML_RE["XmlName"] = re.compile(f"[:{start}][:{start}{extra}]*")
+            _XML_RE["QName"] = re.compile(f"{nc}(:{nc})?")
+            _XML_RE["XmlChars"] = re.compile("[\\t\\n\\r\\u0020-\\uD7FF\\uE000-\\uFFFD\\U00010000-\\U0010FFFF]*")
+        return isinstance(s, str) and _XML_RE[name].fullmatch(s) is not None
+    mod, _, attr = name.rpartition(".")
+    pat = getattr(importlib.import_module(mod), attr)
+    return isinstance(s, str) and getattr(pat, how)(s) is not None
+
+
+class NativeWriter:
+    """Stand-in for the writer object passed to writexml: records what was written."""
+
+    def __init__(self, buf=""):
+        self.buf = buf
+
+    def write(self, s):
+        self.buf += s
+
+    def __eq__(self, o):
+        return isinstance(o, NativeWriter) and o.buf == self.buf
+
+    def __repr__(self):
+        return f"Writer({self.buf!r})"
+
+
+def _native_writer_append(w, text):
+    return NativeWriter(w.buf + text)
+
+
+def _native_translate(s, name):
+    import importlib
+
+    mod, _, attr = name.rpartition(".")
+    return s.translate(getattr(importlib.import_module(mod), attr))
+
+
 class _LazyImplies(ast.NodeTransformer):
     """implies(a, b) / ite(c, a, b) must not evaluate the unused branch natively."""
 
@@ -65,12 +113,14 @@ def compile_expr(e: ast.expr):
 
 def base_env(registry: Registry) -> dict:
     env = {
-        "forall": _forall, "exists": _exists, "implies": _implies,
+        "forall": _forall, "exists": _exists, "implies": _implies, "keys": lambda d: list(d.keys()),
         "iff": lambda a, b: bool(a) == bool(b),
         "strip": lambda s: s.strip(),
         "re_sub": lambda pat, repl, s: re.sub(pat, repl, s),
         "ite": lambda c, a, b: a if c else b,
-        "matches": lambda s, name: registry.native_env["__regex__"][name](s),
+        "matches": _native_matches,
+        "translate_table": _native_translate,
+        "Writer_append": _native_writer_append,
     }
     env.update(registry.native_env)
     # spec functions: executed natively from the same source
@@ -99,6 +149,7 @@ class NativeContract:
         self.ensures = [(ast.unparse(e), compile_expr(e)) for e in c.ensures]
         self.raises = [(cls, ast.unparse(w), compile_expr(w), exact) for cls, w, exact in c.raises]
         self.ghosts = [(n, compile_expr(e)) for n, e in c.ghosts]
+        self.pre_items = [(k, n, ast.unparse(e), compile_expr(e)) for k, n, e in c.pre_items]
 
     def real_function(self):
         m = extract.import_module(self.c.module)
@@ -113,9 +164,10 @@ class NativeContract:
         fn = fn or self.real_function()
         env = dict(self.env)
         env.update({k: v for k, v in args.items()})
-        for n, code in self.ghosts:
-            env[n] = eval(code, env)  # noqa: S307
-        for txt, code in self.requires:
+        for kind, n, txt, code in self.pre_items:
+            if kind == "ghost":
+                env[n] = eval(code, env)  # noqa: S307
+                continue
             try:
                 ok = eval(code, env)  # noqa: S307
             except Exception:  # noqa: BLE001
@@ -188,8 +240,32 @@ def int_literals(c: Contract):
     return sorted(lits)
 
 
+def string_literals(c: Contract):
+    """String constants of the function under test and of its contract: vocabulary for keys/values."""
+    out = []
+    ex = extract.find(c.module, c.qualname)
+    nodes = [c.node] + ([ex.node] if ex is not None else [])
+    for root in nodes:
+        for n in ast.walk(root):
+            if isinstance(n, ast.Constant) and isinstance(n.value, str) and 0 < len(n.value) <= 24 and n.value not in out:
+                out.append(n.value)
+    # enum / constant names referenced through attributes (EC.ENTITY_ID ...) resolve natively
+    if ex is not None:
+        try:
+            m = extract.import_module(c.module)
+            for n in ast.walk(ex.node):
+                if isinstance(n, ast.Attribute) and isinstance(n.value, ast.Name) and n.value.id in vars(m):
+                    v = getattr(vars(m)[n.value.id], n.attr, None)
+                    if isinstance(v, str) and 0 < len(v) <= 24 and str(v) not in out:
+                        out.append(str(v.value) if hasattr(v, "value") else str(v))
+        except Exception:  # noqa: BLE001
+            pass
+    return out
+
+
 class Gen:
-    def __init__(self, rng: random.Random, boundaries=(), max_len=6, alphabet=None, builders=None):
+    def __init__(self, rng: random.Random, boundaries=(), max_len=6, alphabet=None, builders=None, vocab=None):
+        self.vocab = list(vocab or [])
         self.rng = rng
         self.boundaries = [b for b in boundaries if 0 <= b <= 200]
         self.max_len = max_len
@@ -217,6 +293,8 @@ class Gen:
         return self.value(k)
 
     def obj(self, k: KObj, fields):
+        if k.cls == "Writer":
+            return NativeWriter(fields.get("buf", ""))
         b = self.builders.get(k.cls)
         if b is not None:
             return b(**fields)
@@ -231,6 +309,8 @@ class Gen:
         if k == K_BOOL:
             return r.random() < 0.5
         if k == K_STR:
+            if self.vocab and r.random() < 0.35:
+                return r.choice(self.vocab)
             n = r.choice([0, 1, 1, 2, 2, 3, 4, 5])
             return "".join(r.choice(self.alphabet) for _ in range(n))
         if k == K_REAL:
@@ -248,7 +328,11 @@ class Gen:
         if isinstance(k, KSet):
             return {self.value(k.elem, depth + 1) for _ in range(r.randint(0, 3))}
         if isinstance(k, KDict):
-            return {self.value(k.key, depth + 1): self.value(k.val, depth + 1) for _ in range(r.randint(0, 4))}
+            d = {}
+            for _ in range(r.randint(0, 6)):
+                key = r.choice(self.vocab) if (self.vocab and k.key == K_STR and r.random() < 0.85) else self.value(k.key, depth + 1)
+                d[key] = self.value(k.val, depth + 1)
+            return d
         if isinstance(k, KObj):
             return self.obj(k, {n: self.value(fk, depth + 1) for n, fk in k.fields.items()})
         if isinstance(k, KFn):
@@ -289,7 +373,7 @@ def search(nc: NativeContract, seed: int, budget: int, builders=None, exhaustive
     """Bounded search for a contract violation. Returns (witness|None, stats)."""
     c = nc.c
     rng = random.Random(seed)
-    gen = Gen(rng, boundaries=int_literals(c), builders=builders, max_len=max_len)
+    gen = Gen(rng, boundaries=int_literals(c), builders=builders, max_len=max_len, vocab=string_literals(c))
     fn = nc.real_function()
     stats = {"evaluations": 0, "skipped": 0, "distinct": set()}
     kinds = [(n, k) for n, k, _ in c.params]
